@@ -167,10 +167,10 @@ def targets():
           Target('make_solver_lbfgs', [fn_make_solver_T()], H, defines=d, enums=[('src/solver.cpp', 'nano::solver_type')]),
           Target('make_solver_osga', [fn_make_solver_T('make_solver_T_osga', 'nano::solver_osga_t')], H, defines=d, enums=[('src/solver.cpp', 'nano::solver_type')]),
           Target('make_solver', [fn_make_solver(), fn_make_solver_T()], H, replace=['make_solver_T'], defines=d, enums=[('src/solver.cpp', 'nano::solver_type')]),
-          Target('penalty_minimize', [fn_penalty_minimize()] + deps(), H, replace=inner, defines=d)]
+          Target('penalty_minimize', [fn_penalty_minimize()] + deps(), H, replace=inner, defines=d, cbmc_flags=['--object-bits', '10'])]
     for cname, cls in (('linear_penalty_do_minimize', 'solver_linear_penalty_t'), ('quadratic_penalty_do_minimize', 'solver_quadratic_penalty_t')):
         ts.append(Target(cname, [do_minimize_fn(cname, cls), fn_penalty_minimize()] + deps(), H, replace=['penalty_minimize'] + inner, defines=d))
-    ts.append(Target('al_do_minimize_c02', [fn_al()] + deps(), H, enforce='al_do_minimize', replace=inner, defines=d + ['NV_MAX_OUTERS=1000']))
+    ts.append(Target('al_do_minimize_c02', [fn_al()] + deps(), H, enforce='al_do_minimize', replace=inner, defines=d + ['NV_MAX_OUTERS=1000'], cbmc_flags=['--object-bits', '10']))
     return ts
 
 
